@@ -503,6 +503,19 @@ func (r *verifRunner) absFrame(vs *verifSess, f verifFrame) map[string]any {
 		} else {
 			out["dacs"] = map[string]any{"want": "-", "given": "-", "mode": "-"}
 		}
+		// the same texts as arrays of 1-char strings (TLC cannot index into strings); "-" = not present
+		dm := out["dacs"].(map[string]any)
+		for _, k := range []string{"want", "given"} {
+			arr := []string{}
+			if sv, _ := dm[k].(string); sv != "-" {
+				for _, c := range sv {
+					arr = append(arr, string(c))
+				}
+			} else {
+				arr = []string{"-"}
+			}
+			out["dacs_"+k] = arr
+		}
 		ds := [][]int{}
 		if l, ok := m["delseq"].([]any); ok {
 			for _, x := range l {
